@@ -59,7 +59,7 @@ def close(a, bb, rel=1e-9):
 
 def check(run, replay=None):
     tier, seed = run.tier, run.seed
-    C.standard_coq_phase(run, CID, gens=("ops",))
+    C.standard_coq_phase(run, CID, gens=("ops", "reduce"))
     ok, msg = C.ensure_ocaml()
     if not ok:
         run.finding("build:c03", "broken-obligation", "cannot build the model driver: " + msg[-600:], {})
